@@ -34,6 +34,10 @@ func init() {
 			r.Notes = append(r.Notes, "replay: "+err.Error())
 			return
 		}
+		if len(rp.Ops) > 0 && rp.Ops[0] == "rate-limited-pipeline" {
+			rateLimitedPipeline(r)
+			return
+		}
 		if len(rp.Ops) > 0 && rp.Ops[0] == "extreme-arguments" {
 			extremeArgsProbe(r)
 			return
@@ -335,6 +339,7 @@ func judgeC15(r *Result, env *c15Env, streams []c15Stream) {
 
 func checkC15(r *Result, rng *rand.Rand, thorough bool) {
 	extremeArgsProbe(r)
+	rateLimitedPipeline(r)
 	env := newC15Env()
 	defer env.close()
 	r.Rule = "streams over a real record-marking TCP connection: valid NFS/MOUNT calls for every procedure, each mutated (byte flips, field overwrites with 0/0xffffffff/0x7fffffff), truncated at every point, reframed into fragments (including empty ones), interleaved with random bytes, records with huge declared fragment/opaque/auth lengths, records over the 1 MiB limit assembled from small fragments; decodability decided by the Lean model of DecodeRPCCall; reply XID sequence, connection closure, allocation per stream and a probe client checked"
@@ -572,4 +577,56 @@ func extremeArgsProbe(r *Result) {
 		what = "after the boundary-value calls the server no longer serves a conformant client: " + last
 	}
 	r.violate(Violation{Class: "C15/server-died", What: what, Detail: stderr, Ops: []string{"extreme-arguments"}})
+}
+
+// rateLimitedPipeline: "answers each decodable call at most once" also when the connection loop refuses calls
+// itself: a burst of pipelined NULL calls beyond the per-connection limit; every XID is answered exactly once
+// (accepted or MSG_DENIED), nothing else arrives.
+func rateLimitedPipeline(r *Result) {
+	cfg := absnfs.DefaultRateLimiterConfig()
+	cfg.PerConnectionRequestsPerSecond, cfg.PerConnectionBurstSize = 1, 3
+	s, err := newSrv(NewRefFS(), absnfs.ExportOptions{EnableRateLimiting: true, RateLimitConfig: &cfg})
+	must(err)
+	defer s.Close()
+	p := servePeer(s, "10.3.3.3", 900)
+	defer p.Close()
+	const calls = 8
+	var out []byte
+	cred := encAuthSys(0, []byte("c"), 0, 0, nil)
+	for i := 0; i < calls; i++ {
+		out = append(out, frame(cat(encCallHdr(uint32(7000+i), 2, progNFS, 3, 0, 1, cred, 0, nil)), nil)...)
+	}
+	go func() { p.c.SetWriteDeadline(time.Now().Add(5 * time.Second)); p.c.Write(out) }()
+	seen := map[uint32]int{}
+	total := 0
+	for {
+		var hdr [4]byte
+		p.c.SetReadDeadline(time.Now().Add(1500 * time.Millisecond))
+		if _, err := io.ReadFull(p.c, hdr[:]); err != nil {
+			break
+		}
+		n := binary.BigEndian.Uint32(hdr[:]) & 0x7fffffff
+		if n > 1<<20 {
+			break
+		}
+		buf := make([]byte, n)
+		if _, err := io.ReadFull(p.c, buf); err != nil {
+			break
+		}
+		total++
+		if len(buf) >= 4 {
+			seen[binary.BigEndian.Uint32(buf)]++
+		}
+		if total > 4*calls {
+			break
+		}
+	}
+	r.noteCase("rate-limited-pipeline", true)
+	r.Histogram["rate-limited-pipeline-replies"] += total
+	for i := 0; i < calls; i++ {
+		if n := seen[uint32(7000+i)]; n > 1 {
+			r.violate(Violation{Class: "C15/call-answered-twice", What: fmt.Sprintf("%d pipelined NULL calls against a per-connection burst of 3: %d replies arrived, xid %d was answered %d times", calls, total, 7000+i, n), Ops: []string{"rate-limited-pipeline"}})
+			return
+		}
+	}
 }
